@@ -1,6 +1,7 @@
 import SurfProofs.Lemmas.ToNFA
 import SurfProofs.Lemmas.Tags
 import SurfProofs.Lemmas.AliveRe
+import SurfProofs.Lemmas.AliveAt
 import SurfProofs.Lemmas.Subset
 /-!
 # C15 — compiled automata accept exactly the language of the expression that built them
@@ -110,12 +111,26 @@ theorem C15_tags_map (n : NFA) (f : Nat → Nat) (w : List UInt8) (t : Nat) :
     rw [← matches_iff_lang, ← matches_iff_lang] at h
     cases h1 : (n.tagsMap f).compile.matches w <;> cases h2 : n.compile.matches w <;> simp_all
 
-/-- **Tags, every reachable state, tags anywhere.** For every expression in which no `tag_stop_state` lands on
-    an already tagged state (`NoRetag`; tags may sit inside sequences, under loops and optionals, in nested
-    choices, and need not be on the last component), the tags reported after consuming ANY input `w` —
-    accepting or not — are exactly the tags the expression has completed on `w` (`Alive`: the tagged
-    sub-expression matched a suffix of `w` after everything before it matched the prefix). -/
-theorem C15_tags_alive (e : Re) (h : NoRetag e) (w : List UInt8) (t : Nat) :
+/-- **Tags, every reachable state, tags anywhere, re-tagging included.** For EVERY expression and EVERY input
+    `w` — accepting or not — the tags reported after consuming `w` are exactly the tags the expression has
+    completed on `w` (`AliveAt false`, an inductive definition on expressions: the tagged sub-expression matched a
+    suffix of `w` after everything before it matched the prefix; `tag t e` shows `t` when `e` has matched and
+    keeps the tags of `e` that do not sit on `e`'s stop state — the documented behaviour of `tag_stop_state`:
+    the new tag REPLACES the one that was there). -/
+theorem C15_tags_alive (e : Re) (w : List UInt8) (t : Nat) :
+    t ∈ e.toNFA.compile.tagsAfter w ↔ AliveAt false e w t := by
+  rw [mem_tagsAfter_iff]
+  exact (aliveAt_spec e).1 w t
+
+/-- re-tagging replaces: `word = "ab"<1>`, `word | ("x" word)<2> | (word+)<3>` -/
+example : (Re.alt [.tag 1 (.lit [97, 98]), .tag 2 (.seq [.lit [120], .tag 1 (.lit [97, 98])]),
+    .tag 3 (.plus (.tag 1 (.lit [97, 98])))]).toNFA.compile.tagsAfter [120, 97, 98] = [2] := by decide
+example : (Re.alt [.tag 1 (.lit [97, 98]), .tag 2 (.seq [.lit [120], .tag 1 (.lit [97, 98])]),
+    .tag 3 (.plus (.tag 1 (.lit [97, 98])))]).toNFA.compile.tagsAfter [97, 98] = [1, 3] := by decide
+
+/-- the same with the simpler relation `Alive`, for expressions in which no `tag_stop_state` lands on an
+    already tagged state -/
+theorem C15_tags_alive_noretag (e : Re) (h : NoRetag e) (w : List UInt8) (t : Nat) :
     t ∈ e.toNFA.compile.tagsAfter w ↔ Alive e w t := by
   rw [mem_tagsAfter_iff]
   exact alive_spec e h w t
